@@ -45,6 +45,10 @@ def cases(tier):
             if i % step:
                 continue
             out.append({"kind": "poly3", "pts": S, "cls": "ConvexPolyhedron" if i % 2 == 0 else "Polyhedron", "pl": pq[i % 8]})
+            if k == 5 and (i // step) % 4 == 0:
+                # absolute tolerances (miniball's epsilon = 1e-7 on squared distances) only show at extreme sizes
+                tp = A.placements_tiny() + [A.placement("L6", "s1e-3", "t10u")]
+                out.append({"kind": "poly3", "pts": S, "cls": "ConvexPolyhedron" if i % 3 == 0 else "Polyhedron", "pl": tp[(i // step // 4) % len(tp)]})
     names = sorted(n for f, n, v in [(f, f + ":" + n, v) for f, n, v in FA.generated() + FA.tabulated()] if not n.startswith("science") and not n.startswith("johnson"))
     for i, n in enumerate(names):
         out.append({"kind": "tab3", "name": n, "pl": pq[i % 8]})
@@ -68,6 +72,9 @@ def cases(tier):
             polys.append(c)
     for i, c in enumerate(polys):
         out.append({"kind": "poly2", "poly": [list(p) for p in c], "pl": PL3[i % 8]})
+        if i % 6 == 0:
+            tp = A.placements_tiny() + [A.placement("L6", "s1e-3", "t10u")]
+            out.append({"kind": "poly2", "poly": [list(p) for p in c], "pl": tp[(i // 6) % len(tp)]})
     special = {
         "rect31": [(0, 0), (3, 0), (3, 1), (0, 1)],
         "square": [(0, 0), (2, 0), (2, 2), (0, 2)],
@@ -91,7 +98,7 @@ def cases(tier):
                 if (ia + ib + ic) % (3 if q else 1) == 0:
                     out.append({"kind": "curved", "cls": "Ellipsoid", "axes": [a, b, c], "centre": (ia + ib + ic) % 4})
     # E3
-    e3shapes = ["ConvexPolyhedron/chiral", "Polyhedron/lattice", "ConvexPolyhedron/tab", "Polygon/chiral", "ConvexPolygon/lattice", "Polygon/xy"]
+    e3shapes = ["ConvexPolyhedron/chiral", "Polyhedron/lattice", "ConvexPolyhedron/tab", "Polygon/chiral", "ConvexPolygon/lattice", "Polygon/xy", "ConvexPolyhedron/tiny", "Polygon/tiny"]
     for nm in e3shapes[:2] + e3shapes[3:4]:
         for k in range(0, 12):
             out.append({"kind": "e3-fault", "base": nm, "failures": k})
@@ -100,6 +107,13 @@ def cases(tier):
         if nm in ("ConvexPolyhedron/chiral", "Polygon/chiral"):
             b += 1
         out.append({"kind": "e3-pivot", "base": nm, "bound": b})
+    # every pivot order up to 4 deviations on 5-point sets at sizes 1e-3 and 1e-6 (all points may become support
+    # points, which is where miniball applies its absolute epsilon)
+    # (the first set is the one on which miniball was seen to return a ball that misses a vertex)
+    s5 = [[[0, 0, 1], [0, 1, 0], [0, 1, 2], [2, 0, 1], [2, 1, 0]]] + [S5 for i, S5 in enumerate(A.s3(5)) if i % (100 if q else 8) == 0]
+    for S5 in s5:
+        for pl in (A.placement("L6", "s1e-3", "t10u"), A.placement("I", "s1e-6", "t0")):
+            out.append({"kind": "e3-pivot", "base": {"pts": [list(p) for p in S5], "pl": pl}, "bound": 3 if q else 4})
     return out
 
 
@@ -418,7 +432,13 @@ def run_e3(case):
     from .. import e1
 
     rep = Report()
-    obj = e1.make_base(case["base"])
+    if isinstance(case["base"], dict):
+        # a lattice point set under a placement (extreme sizes: miniball's tolerances are absolute)
+        from coxeter import shapes as S
+
+        obj = S.ConvexPolyhedron(A.apply_placement(case["base"]["pl"], np.array(case["base"]["pts"], float)))
+    else:
+        obj = e1.make_base(case["base"])
     three = not hasattr(obj, "normal")
     name = "minimal_bounding_sphere" if three else "minimal_bounding_circle"
     V = np.asarray(obj.vertices, float)
